@@ -662,6 +662,20 @@ func streamSlice(seed uint64, idx int) caseT {
 		d := canonOf(map[string]interface{}{"rows": rows})
 		lines = append(lines, "S "+hexField("rows"+e1+".m"+e2)+" "+d, "S "+hexField("rows"+e1+".m"+e2+e1)+" "+d, "S "+hexField("rows[*].m"+e1+" | @"+e2+e1)+" "+d)
 	}
+	if idx%7 == 0 { // the same slice written with white space around every part, and one part per line
+		arr := make([]interface{}, n)
+		for i := range arr {
+			arr[i] = float64(i)
+		}
+		part := func(x string) string {
+			if x == "_" {
+				return ""
+			}
+			return x
+		}
+		d := canonOf(map[string]interface{}{"a": arr})
+		lines = append(lines, "S "+hexField("a[ "+part(a)+" : "+part(b)+" : "+part(c)+" ]")+" "+d, "S "+hexField("a["+part(a)+" :"+part(b)+"\t:"+part(c)+"\n]")+" "+d, "S "+hexField("a[\n"+part(a)+"\n:\n"+part(b)+"\n]")+" "+d)
+	}
 	if idx%97 == 0 { // the same slice on non-arrays and behind a projection
 		e := sliceExpr(a, b, c)
 		lines = append(lines, "S "+hexField("a"+e)+" "+canonOf(map[string]interface{}{"a": "abc"}),
@@ -689,7 +703,14 @@ func streamSliceBig(seed uint64, idx int) caseT {
 		return caseT{lines: []string{"Y " + strconv.Itoa(n) + " " + dec(idx%m) + " " + dec((idx/m)%m) + " " + dec(idx/(m*m))}}
 	}
 	n := g.r.intn(51)
+	if g.r.chance(30) {
+		n = sizeLadder[g.r.intn(len(sizeLadder))] // long arrays (a count computed up front, a threshold between two loops)
+	}
 	pick := func() string {
+		if n > 50 && g.r.chance(50) {
+			// bounds close to each other anywhere in a long array, steps of small magnitude ≥ 2
+			return strconv.Itoa(g.r.intn(n+4) - 2 - g.r.intn(2)*n)
+		}
 		switch g.r.intn(10) {
 		case 0, 1, 2:
 			return "_"
